@@ -347,6 +347,22 @@ def build (spec, route = 'cli', **kw):
     return m
 # end def build
 
+def readdress_by_tag (m):
+    """ register the sources of the model again in the per-object form (k-th pulse of the object with that tag): the
+        same pulses with the same voltages """
+    MM  = common.repo ()
+    own = {}
+    for g in m.geo:
+        for k, p in enumerate (g.pulses):
+            own [p.idx] = (k, g.tag)
+    src = [(s.idx, complex (s.voltage)) for s in m.sources]
+    m.sources = []
+    for idx, v in src:
+        k, tag = own [idx]
+        common.guarded (lambda: m.register_source (MM.Excitation (v), k, tag), 'register_source')
+    return m
+# end def readdress_by_tag
+
 # ------------------------------------------------------------- geometry utils
 
 def rot_matrix (rng):
